@@ -71,6 +71,14 @@ def run(tier, replay):
             V.violation("password callback after an earlier login (user=%s pw=%s addr=%s): user=%s pw=%s addr=%s granted=%s, Ref=%s" %
                         (b["first"]["user"], b["first"]["pw"], b["first"]["addr"], b["case"]["user"], b["case"]["pw"], b["case"]["addr"],
                          b["granted"], b["case"]["ref"]), b)
+        co = os.path.join(wd, "conc.json")
+        rc, out = vlib.go_test(wd, "./internal/ssh/server", ov, "TestC09Concurrent", env={"VERIF_OUT": co, "VERIF_N": 150 if tier == "quick" else 3000}, timeout=1200)
+        if rc != 0 or not os.path.exists(co):
+            raise vlib.Inconclusive("concurrent login harness failed\n" + out[-2000:])
+        cres = json.load(open(co))
+        evals += cres["evaluations"]
+        for b in cres["bad"] or []:
+            V.violation("overlapping logins: " + b, {"bad": cres["bad"][:5]})
         ho = os.path.join(wd, "ho.json")
         ov3 = {"internal/server/handlers/vcommon_test.go": ("common/vcommon_test.go", "handlers"),
                "internal/server/handlers/c09_health_test.go": "handlers/c09_health_test.go"}
